@@ -86,6 +86,68 @@ pub fn check_price(c: &PriceCase, l: &mut Local) -> Result<(), String> {
     Ok(())
 }
 
+/// Mantissas (Q1.63, 64 significant bits) that drive the inverse conversion's iterated-squaring log2 loop onto its decision
+/// boundaries: a value whose square is within a few units of 2.0 (the "append a one bit and halve" decision), or the smallest /
+/// largest mantissa, reached after 0..=13 squarings.  Built backwards with exact integer square roots, keeping a small window of
+/// neighbours at every level (a variant of the loop that rounds differently follows a slightly different path).  Random prices hit
+/// such mantissas with probability about 2^-58 per octave; here they are enumerated.
+pub fn log2_boundary_mantissas() -> &'static Vec<u64> {
+    static L: std::sync::OnceLock<Vec<u64>> = std::sync::OnceLock::new();
+    L.get_or_init(|| {
+        let isqrt = |x: &BigUint| -> u128 { x.sqrt().try_into().unwrap() };
+        let (lo, hi) = (1u128 << 63, (1u128 << 64) - 1);
+        let root2 = isqrt(&pow2(127));
+        let mut level: std::collections::BTreeSet<u128> = std::collections::BTreeSet::new();
+        for base in [root2, lo, hi] {
+            for d in -3i128..=3 {
+                let v = (base as i128 + d).clamp(lo as i128, hi as i128) as u128;
+                level.insert(v);
+            }
+        }
+        let mut all: std::collections::BTreeSet<u128> = level.clone();
+        for depth in 1..=13 {
+            let w: i128 = if depth <= 2 { 2 } else { 1 };
+            let mut next = std::collections::BTreeSet::new();
+            for v in &level {
+                for s in [63u32, 64] {
+                    let r0 = isqrt(&(b(*v) << s));
+                    for d in -w..=w {
+                        let r = r0 as i128 + d;
+                        if r < lo as i128 || r > hi as i128 {
+                            continue;
+                        }
+                        let r = r as u128;
+                        // the shift this mantissa really takes
+                        let sq = b(r) * b(r);
+                        let halves = sq >= pow2(127);
+                        if halves == (s == 64) {
+                            next.insert(r);
+                        }
+                    }
+                }
+            }
+            all.extend(next.iter().cloned());
+            level = next;
+        }
+        all.into_iter().map(|v| v as u64).collect()
+    })
+}
+
+/// the i-th enumerated price: mantissa x octave (most significant bit 32..=95) x low-bit filling (zeros / ones)
+pub fn log2_boundary_price(i: u64) -> Option<u128> {
+    let m = log2_boundary_mantissas();
+    let (mi, rest) = (i / 128, i % 128);
+    let (msb, ones) = (32 + (rest / 2) as u32, rest % 2 == 1);
+    let r = *m.get(mi as usize)? as u128;
+    let p = if msb >= 63 {
+        let k = msb - 63;
+        (r << k) | if ones && k > 0 { (1u128 << k) - 1 } else { 0 }
+    } else {
+        r >> (63 - msb)
+    };
+    (MIN_SQRT_PRICE..=MAX_SQRT_PRICE).contains(&p).then_some(p)
+}
+
 fn price_strategy() -> BoxedStrategy<PriceCase> {
     let span = MAX_SQRT_PRICE - MIN_SQRT_PRICE;
     prop_oneof![
@@ -113,7 +175,9 @@ pub fn def() -> CheckDef {
         id: "C09",
         rule: "forward domain: every tick in [-443636, 443636] enumerated (monotone, endpoints, exact-integer 2^-32 step-ratio \
                inequality, inverse at p(t) and p(t)±1); every tick is a distinct non-trivial case.  inverse domain: random sqrt-prices \
-               (uniform, log-uniform, near boundaries, bit-structured: 2^n±d, runs of ones, all-ones prefixes) checked for p(t) <= x < p(t+1); distinct = distinct price.",
+               (uniform, log-uniform, near boundaries, bit-structured: 2^n±d, runs of ones, all-ones prefixes) checked for p(t) <= x < p(t+1); distinct = distinct price.  inverse_log2_boundaries: the same bracket \
+               oracle on an enumerated set of prices whose 64-bit mantissa drives the iterated-squaring log2 loop onto a decision boundary (square within a few units of 2.0, smallest / largest \
+               mantissa) after 0..=13 squarings: pre-images built backwards with exact integer square roots and a window of neighbours per level, in every octave, low bits all zero / all one.",
         assumptions: vec!["x86-64 and SBF code generation agree on safe integer code"],
         subs: vec![
             Sub {
@@ -133,6 +197,28 @@ pub fn def() -> CheckDef {
                 }),
             },
             sub("inverse_random", 16_000_000, 1_000_000_000, price_strategy, |c: &PriceCase, l: &mut Local| check_price(c, l)),
+            Sub {
+                name: "inverse_log2_boundaries",
+                run: Box::new(|ctx| {
+                    let n = log2_boundary_mantissas().len() as u64 * 128;
+                    run_enum(ctx, "inverse_log2_boundaries", n, |i, l| {
+                        let Some(p) = log2_boundary_price(i) else {
+                            l.count("outside_price_bounds");
+                            return Ok(());
+                        };
+                        // a panic of the conversion (arithmetic overflow in a debug build) is a failure of the case as well
+                        let c = PriceCase { sqrt_price: p };
+                        match crate::rt::try_call(|| check_price(&c, l)) {
+                            Ok(r) => r.map_err(|m| (json!(c), m)),
+                            Err(pm) => Err((json!(c), format!("tick_of({p}) panicked: {pm}"))),
+                        }
+                    })
+                }),
+                replay: Box::new(|v| {
+                    let c: PriceCase = serde_json::from_value(v.clone()).map_err(|e| e.to_string())?;
+                    check_price(&c, &mut Local::default())
+                }),
+            },
         ],
     }
 }
